@@ -8,6 +8,7 @@ from .. import core, qpool
 from .. import gen as G
 
 LEVEL = "proof"
+READY = True
 CLAIM = {
     "text": "Lean safety theorems over ALL inputs for the modelled calls: parsing any text as a JSON Pointer or Relative JSON Pointer, resolving any parsed pointer against any "
             "document, building a patch from any JSON value and applying any operation list to any document never produce a built-in exception in the model (every Python "
